@@ -135,6 +135,17 @@ def operations(g, h, model, vs):
         'node_contexts(g2|g)': lambda: layout.node_contexts(h.decoded_partner | g),
         'encode(empty|dup)': lambda: _try(lambda: penman.encode(Graph() | h.dup_partner, model=model)),
         'encode(g|dup)': lambda: _try(lambda: penman.encode(g | h.dup_partner, model=model)),
+        # the calls that do not take a graph: text <-> tree, triple conjunctions, constants, the lexer
+        'format(parse(text))': lambda: penman.format(penman.parse(penman.encode(g, model=model)), indent=None),
+        'iterparse(two graphs)': lambda: [t.node for t in penman.iterparse(penman.encode(g, model=model) + '\n\n'
+                                                                             + penman.encode(g, model=model, indent=None))],
+        'parse_triples(format_triples)': lambda: penman.parse_triples(penman.format_triples(
+            [('first', ':of', 'all')] + [t for t in g.triples if t[2] is not None and t[1] != ':'
+                                         and not any(c in str(t[0]) + str(t[1]) + str(t[2]) for c in '(),^ #')][:12])),
+        'constants': lambda: [(repr(_constant().evaluate(a)), _constant().type(a).name, _constant().quote(a))
+                              for a in ('true', 'false', 'null', '12', '-1.5', '"s t"', 'x', '', '1e3')],
+        'lex(triple pattern)': lambda: [(t.type, t.text, t.lineno, t.offset) for t in _lex_triple('a:b /c ~1 r(a, "b ^ c") ^s(c,d)')],
+        'top_setter_refusal': lambda: _refused_top(h),
         # a refused model operation leaves the model as it was
         'model_refuses_dereify': lambda: _model_refusal(model),
         'model_state': lambda: _model_state(model),
@@ -163,6 +174,28 @@ def operations(g, h, model, vs):
         'interpret_default_tree': lambda: layout.interpret(penman.Tree(layout.configure(g, model=model).node), model),
         'canonicalize_roles': lambda: transform.canonicalize_roles(layout.configure(g, model=model), model),
     }
+
+
+def _constant():
+    from penman import constant
+    return constant
+
+
+def _lex_triple(text):
+    from penman import _lexer
+    pat = getattr(_lexer, 'TRIPLE_RE', None)
+    return list(_lexer.lex(text, pattern=pat)) if pat is not None else []
+
+
+def _refused_top(h):
+    import copy
+    from penman.exceptions import GraphError
+    g2 = copy.deepcopy(h)
+    try:
+        g2.top = 'no-such-variable'
+        return ('accepted', g2.top)
+    except GraphError:
+        return ('refused', g2.top)
 
 
 def _model_state(model):
@@ -265,14 +298,19 @@ def oracle(ctx, kind, p):
     if kind == 'batch':
         outdir = os.path.join(core.OUT, 'C17', ctx.tier, f'logs-{ctx.shard}')
         os.makedirs(outdir, exist_ok=True)
-        runs = [(hs, 'inorder') for hs in HASHSEEDS] + [('0', 'shuffle'), ('0', 'reverse')]
+        # ... and one interpreter started with PYTHONOPTIMIZE=1 (assert statements compiled away): the
+        # mode of the interpreter is not an argument of any call
+        runs = [(hs, 'inorder') for hs in HASHSEEDS] + [('0', 'shuffle'), ('0', 'reverse'), ('1', 'optimized')]
         procs = []
         for hs, mode in runs:
             path = os.path.join(outdir, f'b{p["start"]}-hs{hs}-{mode}.jsonl')
             fh = open(path, 'w')
+            env = _env(hs)
+            if mode == 'optimized':
+                env['PYTHONOPTIMIZE'] = '1'
             pr = subprocess.Popen([sys.executable, '-B', '-m', 'pmon.checks.C17', 'worker', str(ctx.seed),
                                    str(p['start']), str(p['count']), mode],
-                                  stdout=fh, stderr=subprocess.PIPE, env=_env(hs), cwd=core.ROOT)
+                                  stdout=fh, stderr=subprocess.PIPE, env=env, cwd=core.ROOT)
             procs.append((hs, mode, path, fh, pr))
         logs = {}
         for hs, mode, path, fh, pr in procs:
